@@ -8,15 +8,6 @@ func init() {
 	const hcli = "freighter/go/http/stream_client.go"
 	const ggo = "freighter/go/grpc/stream.go"
 
-	mut("C14", "freighter decoder swaps EOF and stream-closed", ferr,
-		"	case eofErrorType:\n		return EOF, true\n	case streamClosedErrorType:\n		return ErrStreamClosed, true",
-		"	case eofErrorType:\n		return ErrStreamClosed, true\n	case streamClosedErrorType:\n		return EOF, true", "C14.R1.registry")
-	mut("C14", "query decoder forgets the unique-violation kind", "x/go/query/errors.go",
-		"	case uniqueViolation:\n		return errors.Wrap(ErrUniqueViolation, pld.Data), true\n", "", "C14.R1.registry")
-	mut("C14", "auth decoder maps invalid token to expired token", "core/pkg/service/auth/errors.go",
-		"	case invalidTokenType:\n		return errors.Wrap(ErrInvalidToken, p.Data), true", "	case invalidTokenType:\n		return errors.Wrap(ErrExpiredToken, p.Data), true", "C14.R1.registry")
-	mut("C14", "validation decoder claims every sy. payload", "x/go/validate/errors.go",
-		"	if !strings.HasPrefix(p.Type, baseErrorType) {", "	if !strings.HasPrefix(p.Type, \"sy.\") {", "C14.R1.registry")
 	mut("C14", "mock terminal message sent only if the buffer has room", mockgo,
 		"	close(s.serverClosed)\n	s.responses <- message[RS]{error: errPayload}", "	close(s.serverClosed)\n	select {\n	case s.responses <- message[RS]{error: errPayload}:\n	default:\n	}", "C14.R2.terminal")
 	mut("C14", "mock terminal message drops the handler's error", mockgo,
@@ -45,8 +36,6 @@ func init() {
 	// ---------------- E14 (error flow)
 	mut("C14", "TransformReceiver tests ok before the transform's error", "freighter/go/freightfluence/receiver.go",
 		"			if err != nil {\n				return err\n			}\n			if !ok {\n				continue o\n			}", "			if !ok {\n				continue o\n			}\n			if err != nil {\n				return err\n			}", "C14.ERR")
-	mut("C14", "expired tokens are typed as such only for some errors", "core/pkg/service/auth/errors.go",
-		"errors.CheapIs(err, ErrExpiredToken)", "errors.CheapIs(err, ErrExpiredToken) && !errors.CheapIs(err, ErrInvalidToken)", "C14.R1")
 	mut("C14", "gRPC client Send no longer refuses after CloseSend", "freighter/go/grpc/stream.go",
 		"	if c.closeSent {\n		return freighter.ErrStreamClosed\n	}\n	tReq", "	tReq", "C14.R3.sticky")
 	mut("C14", "WebSocket client Send refuses after CloseSend only when the peer also closed", "freighter/go/http/stream_client.go",
